@@ -107,6 +107,122 @@ func init() {
 	})
 }
 
+// ---------- shared: the abstraction supervisor.State applies to the raw state word ----------
+
+// stateAlpha is α: raw word of supervisor.state → the ConnState that supervisor.State()
+// reports for it, extracted from the paths of supervisor.State on every run. It is decided
+// for the three E37 states and for every other constant the code compares the word with
+// or stores into it ("sealed" words: internal values that are not a ConnState).
+type stateAlpha struct {
+	img    map[int64]int64 // α on every candidate word
+	sealed map[int64]int64 // candidates outside the E37 states → reported state
+	loads  int             // atomic reads of the word in supervisor.State
+	undec  []string        // candidates whose image could not be decided
+	fn     *ssa.Function
+}
+
+var alphaCache = map[*World]*stateAlpha{}
+
+func c05Alpha(w *World, t *e37) *stateAlpha {
+	if a, ok := alphaCache[w]; ok {
+		return a
+	}
+	supState := w.Fn("hsms", "supervisor.State")
+	fState := w.Field("hsms", "supervisor", "state")
+	a := &stateAlpha{img: map[int64]int64{}, sealed: map[int64]int64{}, fn: supState}
+	alphaCache[w] = a
+	isState := map[int64]bool{t.NC: true, t.NS: true, t.S: true}
+	cand := map[int64]bool{t.NC: true, t.NS: true, t.S: true}
+	// constants the reader compares the word with
+	eachInstr(supState, func(in ssa.Instruction) {
+		if c, ok := in.(ssa.CallInstruction); ok && callIsAtomicMethodOn(c, fState, "Load") {
+			a.loads++
+		}
+		if b, ok := in.(*ssa.BinOp); ok {
+			for _, op := range []ssa.Value{b.X, b.Y} {
+				if k, ok := constInt(op); ok {
+					cand[k] = true
+				}
+			}
+		}
+	})
+	// constants any production writer puts into the word
+	for _, u := range w.fieldUses(fState) {
+		if !w.IsProd(u.Fn) || !strings.HasPrefix(u.Kind, "method:") {
+			continue
+		}
+		switch strings.TrimPrefix(u.Kind, "method:") {
+		case "Store", "Swap", "CompareAndSwap":
+			for _, arg := range u.Instr2.(ssa.CallInstruction).Common().Args[1:] {
+				if k, ok := constInt(arg); ok {
+					cand[k] = true
+				}
+			}
+		}
+	}
+	paths, ok := enumPaths(supState, 200)
+	if !ok {
+		a.undec = append(a.undec, "too many paths in supervisor.State")
+		return a
+	}
+	var words []int64
+	for k := range cand {
+		words = append(words, k)
+	}
+	sort.Slice(words, func(i, j int) bool { return words[i] < words[j] })
+	for _, wd := range words {
+		mk := func() *Evaluator {
+			ev := &Evaluator{Env: Env{}}
+			ev.Leaf = func(v ssa.Value, e *Evaluator) (int64, bool, bool) {
+				if atomicMethodOn(v, fState, "Load") {
+					return wd, true, true
+				}
+				return 0, false, false
+			}
+			return ev
+		}
+		var hold []*Path
+		undec := false
+		for _, p := range paths {
+			h, ok := p.HoldsWith(mk())
+			if !ok {
+				undec = true
+			}
+			if h && ok {
+				hold = append(hold, p)
+			}
+		}
+		if undec || len(hold) != 1 || len(hold[0].Rets()) != 1 {
+			a.undec = append(a.undec, fmt.Sprintf("word %d: not decided by a unique path (holding=%d)", wd, len(hold)))
+			continue
+		}
+		ev := mk()
+		ev.Resolve = hold[0].Resolve
+		got, ok := ev.Int(hold[0].Rets()[0])
+		if !ok {
+			a.undec = append(a.undec, fmt.Sprintf("word %d: returned value %s is not a function of the state word", wd, render(hold[0].Rets()[0])))
+			continue
+		}
+		a.img[wd] = got
+		if !isState[wd] {
+			a.sealed[wd] = got
+		}
+	}
+	return a
+}
+
+// wordName renders a raw state word: an E37 state by name, a sealed word as
+// sealed:<raw>, anything else as the raw number.
+func (a *stateAlpha) wordName(t *e37, wd int64) string {
+	if s, ok := t.stNames[wd]; ok {
+		return s
+	}
+	if _, ok := a.sealed[wd]; ok {
+		return fmt.Sprintf("sealed:%d", wd)
+	}
+	return fmt.Sprintf("%d", wd)
+}
+
 // ---------- R1 ----------
 
 func c05TransitionTable(r *Run) {
@@ -325,17 +441,36 @@ func isZeroValue(v ssa.Value) bool {
 
 // ---------- R3: step decision table ----------
 
-type stepEffects struct {
-	seq []string
-	pos map[string]token.Pos
+// stepCell is one cell of supervisor.step's decision table: the effects the code performs
+// under one valuation of (closed, ev, cur, lastReacted, CAS outcome, closeEpoch set, hook set).
+type stepCell struct {
+	closed, ev, cur, last, cas, ce, hook int64
+	construct                            string
+	undecided                            string   // non-empty: why the cell could not be decided
+	seq                                  []string // effects in execution order
+	pos                                  map[string]token.Pos
+	final                                int64 // raw state word once the step has run
 }
 
-func c05StepTable(r *Run) {
-	const rule = "C05-R3-step-table"
-	w := r.W
-	t := loadE37(w)
+type stepCells struct {
+	fn      *ssa.Function
+	tooMany bool
+	cells   []stepCell
+}
+
+var stepCache = map[*World]*stepCells{}
+
+// c05StepCells extracts the decision table of supervisor.step from its SSA paths. State
+// writes are rendered through α (c05Alpha): store(<E37 state>), seal(<reported state>) for
+// a store of a sealed word, store(<raw>) for anything State() has no image for.
+func c05StepCells(w *World, t *e37) *stepCells {
+	if sc, ok := stepCache[w]; ok {
+		return sc
+	}
+	al := c05Alpha(w, t)
 	step := w.Fn("hsms", "supervisor.step")
-	r.Analysed(w.FnName(step))
+	sc := &stepCells{fn: step}
+	stepCache[w] = sc
 	fState := w.Field("hsms", "supervisor", "state")
 	fClosed := w.Field("hsms", "supervisor", "closed")
 	fLast := w.Field("hsms", "supervisor", "lastReacted")
@@ -346,8 +481,8 @@ func c05StepTable(r *Run) {
 
 	paths, ok := enumPaths(step, 20000)
 	if !ok {
-		r.Undecided(rule, "supervisor.step", step.Pos(), "too many paths")
-		return
+		sc.tooMany = true
+		return sc
 	}
 	pev := "$" + step.Params[1].Name()
 
@@ -402,11 +537,11 @@ func c05StepTable(r *Run) {
 		return ev
 	}
 
-	// effects of a path under env
-	effectsOf := func(p *Path, ev *Evaluator) ([]string, map[string]token.Pos, bool) {
-		var seq []string
-		pos := map[string]token.Pos{}
-		okAll := true
+	// effects of a path under env; final is the raw word the state holds afterwards
+	effectsOf := func(p *Path, ev *Evaluator, env Env) (seq []string, pos map[string]token.Pos, final int64, okAll bool) {
+		pos = map[string]token.Pos{}
+		okAll = true
+		final = env["cur"]
 		val := func(v ssa.Value) string {
 			i, ok := ev.Int(v)
 			if !ok {
@@ -432,10 +567,27 @@ func c05StepTable(r *Run) {
 			case ssa.CallInstruction:
 				switch {
 				case callIsAtomicMethodOn(x, fState, "Store"):
-					add("store("+val(x.Common().Args[1])+")", x.Pos())
+					wd, ok := ev.Int(x.Common().Args[1])
+					if !ok {
+						okAll = false
+						add("store(?"+render(x.Common().Args[1])+")", x.Pos())
+						break
+					}
+					final = wd
+					if img, isSealed := al.sealed[wd]; isSealed {
+						add("seal("+name(t.stNames, img)+")", x.Pos())
+					} else {
+						add("store("+name(t.stNames, wd)+")", x.Pos())
+					}
 				case callIsAtomicMethodOn(x, fState, "CompareAndSwap"):
 					add("cas("+val(x.Common().Args[1])+","+val(x.Common().Args[2])+")", x.Pos())
-				case callIsAtomicMethodOn(x, fState, "Swap"), callIsAtomicMethodOn(x, fState, "Add"):
+					if env["cas"] == 1 {
+						if wd, ok := ev.Int(x.Common().Args[2]); ok {
+							final = wd
+						}
+					}
+				case callIsAtomicMethodOn(x, fState, "Swap"), callIsAtomicMethodOn(x, fState, "Add"),
+					callIsAtomicMethodOn(x, fState, "And"), callIsAtomicMethodOn(x, fState, "Or"):
 					add("rawwrite", x.Pos())
 				case isFn(fire)(calleeOf(x)):
 					add("fire("+val(x.Common().Args[1])+","+val(x.Common().Args[2])+")", x.Pos())
@@ -444,10 +596,9 @@ func c05StepTable(r *Run) {
 				}
 			}
 		}
-		return seq, pos, okAll
+		return seq, pos, final, okAll
 	}
 
-	cells, decided := 0, 0
 	for _, closed := range []int64{0, 1} {
 		for _, evv := range t.events() {
 			for _, cur := range t.states() {
@@ -456,8 +607,11 @@ func c05StepTable(r *Run) {
 						for _, ce := range []int64{0, 1} {
 							for _, hook := range []int64{0, 1} {
 								env := Env{pev: evv, "closed": closed, "cur": cur, "last": last, "cas": cas, "ce": ce, "hook": hook}
-								cells++
-								construct := fmt.Sprintf("step(closed=%d ev=%s cur=%s lastReacted=%s cas=%d closeEpoch=%d)", closed, name(t.evNames, evv), name(t.stNames, cur), name(t.stNames, last), cas, ce)
+								cell := stepCell{closed: closed, ev: evv, cur: cur, last: last, cas: cas, ce: ce, hook: hook}
+								cell.construct = fmt.Sprintf("step(closed=%d ev=%s cur=%s lastReacted=%s cas=%d closeEpoch=%d)", closed, name(t.evNames, evv), name(t.stNames, cur), name(t.stNames, last), cas, ce)
+								if hook == 1 {
+									cell.construct = strings.TrimSuffix(cell.construct, ")") + " testHook=set)"
+								}
 								var hold []*Path
 								undec := false
 								miss := map[string]bool{}
@@ -473,49 +627,105 @@ func c05StepTable(r *Run) {
 									}
 								}
 								if undec || len(hold) == 0 {
-									r.Undecided(rule, construct, step.Pos(), "cell not decided (holding paths=%d, unevaluable atoms=%v)", len(hold), keys(miss))
+									cell.undecided = fmt.Sprintf("cell not decided (holding paths=%d, unevaluable atoms=%v)", len(hold), keys(miss))
+									sc.cells = append(sc.cells, cell)
 									continue
 								}
 								// several holding paths are fine if they agree on effects (a branch on something outside the vocabulary)
-								var got []string
-								var gotPos map[string]token.Pos
 								agree := true
 								for i, p := range hold {
 									e := mkEval(env)
 									e.Resolve = p.Resolve
-									seq, pos, ok := effectsOf(p, e)
+									seq, pos, final, ok := effectsOf(p, e, env)
 									if !ok {
 										undec = true
 									}
 									if i == 0 {
-										got, gotPos = seq, pos
-									} else if strings.Join(seq, ";") != strings.Join(got, ";") {
+										cell.seq, cell.pos, cell.final = seq, pos, final
+									} else if strings.Join(seq, ";") != strings.Join(cell.seq, ";") || final != cell.final {
 										agree = false
 									}
 								}
 								if undec || !agree {
-									r.Undecided(rule, construct, step.Pos(), "effects not a function of the cell (agree=%v)", agree)
-									continue
+									cell.undecided = fmt.Sprintf("effects not a function of the cell (agree=%v)", agree)
 								}
-								want := stepOracle(t, closed, evv, cur, last, cas, ce)
-								decided++
-								g, wnt := strings.Join(got, ";"), strings.Join(want, ";")
-								pos := step.Pos()
-								for _, s := range got {
-									pos = gotPos[s]
-									break
-								}
-								if g == wnt {
-									// keep evidence compact: record per-cell only for cas=ce=hook=0 baseline and otherwise aggregate
-									if hook == 0 {
-										r.OK(rule, construct, pos, "effects [%s] as required", g)
-									}
-								} else {
-									r.Fail(rule, construct, pos, "effects [%s], required [%s]", g, wnt)
-								}
+								sc.cells = append(sc.cells, cell)
 							}
 						}
 					}
+				}
+			}
+		}
+	}
+	return sc
+}
+
+func c05StepTable(r *Run) {
+	const rule = "C05-R3-step-table"
+	w := r.W
+	t := loadE37(w)
+	sc := c05StepCells(w, t)
+	step := sc.fn
+	r.Analysed(w.FnName(step))
+	if sc.tooMany {
+		r.Undecided(rule, "supervisor.step", step.Pos(), "too many paths")
+		return
+	}
+	isWrite := func(s string) bool {
+		return strings.HasPrefix(s, "store(") || strings.HasPrefix(s, "cas(") || strings.HasPrefix(s, "seal(") || s == "rawwrite"
+	}
+	decided := 0
+	for _, c := range sc.cells {
+		if c.undecided != "" {
+			r.Undecided(rule, c.construct, step.Pos(), "%s", c.undecided)
+			continue
+		}
+		decided++
+		want := stepOracle(t, c.closed, c.ev, c.cur, c.last, c.cas, c.ce)
+		// A seal — a store of an internal word that State() reports as a ConnState — does not
+		// change what State() reports when its image equals the state just stored, so the
+		// table is compared without it and the seal is judged separately: it is admitted only
+		// where the statement makes the state final (the close cell, which also latches), it
+		// must report NotConnected, and it must be the last write of the word in the cell.
+		var plain []string
+		seals, lastSeal, lastWrite := 0, -1, -1
+		sealImgOK := true
+		for i, s := range c.seq {
+			if isWrite(s) {
+				lastWrite = i
+			}
+			if strings.HasPrefix(s, "seal(") {
+				seals++
+				lastSeal = i
+				if s != "seal("+name(t.stNames, t.NC)+")" {
+					sealImgOK = false
+				}
+				continue
+			}
+			plain = append(plain, s)
+		}
+		g, wnt := strings.Join(c.seq, ";"), strings.Join(want, ";")
+		pos := step.Pos()
+		for _, s := range c.seq {
+			pos = c.pos[s]
+			break
+		}
+		switch {
+		case strings.Join(plain, ";") != wnt:
+			r.Fail(rule, c.construct, pos, "effects [%s], required [%s]", g, wnt)
+		case seals > 0 && !(c.closed == 0 && c.ev == t.Close):
+			r.Fail(rule, c.construct, pos, "effects [%s]: the state word is sealed outside the close cell, so no later commit or transition of this supervisor can take effect (required [%s])", g, wnt)
+		case seals > 0 && !sealImgOK:
+			r.Fail(rule, c.construct, pos, "effects [%s]: the word stored on close is reported by State() as something other than NotConnected (required [%s])", g, wnt)
+		case seals > 0 && lastWrite != lastSeal:
+			r.Fail(rule, c.construct, pos, "effects [%s]: a later write of the state word overwrites the seal, so the close is not final", g)
+		default:
+			// keep evidence compact: record per-cell only for the hook=0 baseline
+			if c.hook == 0 {
+				if seals > 0 {
+					r.OK(rule, c.construct, pos, "effects [%s] as required; the final write seals the word, State() keeps reporting NotConnected", g)
+				} else {
+					r.OK(rule, c.construct, pos, "effects [%s] as required", g)
 				}
 			}
 		}
@@ -1030,7 +1240,6 @@ func c05StateDefault(r *Run) {
 	fn := w.Fn("hsms", "connection.State")
 	supState := w.Fn("hsms", "supervisor.State")
 	fSup := w.Field("hsms", "connection", "sup")
-	fState := w.Field("hsms", "supervisor", "state")
 	r.Analysed(w.FnName(fn))
 	paths, ok := enumPaths(fn, 100)
 	if !ok {
@@ -1079,17 +1288,45 @@ func c05StateDefault(r *Run) {
 		r.Fail(rule, construct, p.Exit.Pos(), "returns %s with supervisor nil-ness %d: expected NotConnected for nil, supervisor.State() otherwise", render(rv), supNil)
 	}
 	r.Floor(rule, "State paths", len(paths), 2)
-	// supervisor.State is ConnState(state.Load())
-	okS := false
-	for _, ret := range returnsOf(supState) {
-		if atomicMethodOn(stripConv(ret.Results[0]), fState, "Load") {
-			okS = true
+	// supervisor.State as a function of the raw word (α): identity on the three E37 states,
+	// an E37 state for every other constant the code can put in the word, one atomic read.
+	al := c05Alpha(w, t)
+	r.Analysed(w.FnName(supState))
+	for _, u := range al.undec {
+		r.Undecided(rule, "supervisor.State as a function of the state word", supState.Pos(), "%s", u)
+	}
+	r.Check(al.loads == 1, rule, "supervisor.State reads the state word once", supState.Pos(),
+		"a single atomic Load decides the reported state",
+		fmt.Sprintf("supervisor.State performs %d atomic reads of the state word: two reads can straddle a write and report a value the word never held as a state", al.loads))
+	nImg := 0
+	for _, st := range t.states() {
+		img, ok := al.img[st]
+		if !ok {
+			continue
+		}
+		nImg++
+		construct := "supervisor.State() when the word is " + name(t.stNames, st)
+		if img == st {
+			r.OK(rule, construct, supState.Pos(), "reports %s", name(t.stNames, img))
 		} else {
-			okS = false
-			break
+			r.Fail(rule, construct, supState.Pos(), "reports %s: State() must report the E37 state the word holds", name(t.stNames, img))
 		}
 	}
-	r.Check(okS, rule, "supervisor.State = state.Load()", supState.Pos(), "reads the atomic word directly", "supervisor.State must return the atomic state word unmodified")
+	var sealedWords []int64
+	for k := range al.sealed {
+		sealedWords = append(sealedWords, k)
+	}
+	sort.Slice(sealedWords, func(i, j int) bool { return sealedWords[i] < sealedWords[j] })
+	for _, k := range sealedWords {
+		img := al.sealed[k]
+		construct := fmt.Sprintf("supervisor.State() when the word is the internal value %d", k)
+		if _, isSt := t.stNames[img]; isSt {
+			r.OK(rule, construct, supState.Pos(), "reports %s (where that word may be written is decided by C05-R2/R3/R7)", name(t.stNames, img))
+		} else {
+			r.Fail(rule, construct, supState.Pos(), "reports %d, which is not one of NotConnected/NotSelected/Selected: a word the code stores or tests is shown to callers as a state that does not exist", img)
+		}
+	}
+	r.Floor(rule, "E37 states with a decided State() image", nImg, 3)
 	// IsSelected ⇔ State()==Selected
 	isSel := w.Fn("hsms", "connection.IsSelected")
 	good := false
@@ -1119,8 +1356,50 @@ func c05PostCloseFence(r *Run) {
 	t := loadE37(w)
 	state := w.Field("hsms", "supervisor", "state")
 	step := w.Fn("hsms", "supervisor.step")
-	// P = the value state holds once step latched closed: the table result for evClose.
-	p, _ := t.next(t.S, t.Close)
+	al := c05Alpha(w, t)
+	// P = the raw words the state can hold once step has handled evClose and latched: the
+	// final word of every close cell of the extracted step table (C05-R3 decides that those
+	// cells latch and that nothing in step runs afterwards).
+	sc := c05StepCells(w, t)
+	r.Analysed(w.FnName(step))
+	if sc.tooMany {
+		r.Undecided(rule, "post-close value of the state word", step.Pos(), "too many paths in supervisor.step")
+		return
+	}
+	post := map[int64]bool{}
+	nClose := 0
+	for _, c := range sc.cells {
+		if c.closed != 0 || c.ev != t.Close {
+			continue
+		}
+		if c.undecided != "" {
+			r.Undecided(rule, "post-close value of the state word in "+c.construct, step.Pos(), "%s", c.undecided)
+			return
+		}
+		nClose++
+		post[c.final] = true
+	}
+	r.Floor(rule, "close cells of step", nClose, 3*3*2*2*2)
+	var ps []int64
+	for k := range post {
+		ps = append(ps, k)
+	}
+	sort.Slice(ps, func(i, j int) bool { return ps[i] < ps[j] })
+	var pnames []string
+	for _, p := range ps {
+		pnames = append(pnames, al.wordName(t, p))
+		img, ok := al.img[p]
+		construct := "State() once step(evClose) has run, word = " + al.wordName(t, p)
+		switch {
+		case !ok:
+			r.Undecided(rule, construct, step.Pos(), "supervisor.State has no decided image for this word")
+		case img == t.NC:
+			r.OK(rule, construct, step.Pos(), "reported as NotConnected")
+		default:
+			r.Fail(rule, construct, step.Pos(), "reported as %s: after Close the connection must report NotConnected", name(t.stNames, img))
+		}
+	}
+	pset := "{" + strings.Join(pnames, ",") + "}"
 	n := 0
 	for _, u := range w.fieldUses(state) {
 		if !w.IsProd(u.Fn) || sameFn(u.Fn, step) || u.Kind != "method:CompareAndSwap" {
@@ -1134,11 +1413,11 @@ func c05PostCloseFence(r *Run) {
 			r.Undecided(rule, construct, c.Pos(), "non-constant old value")
 			continue
 		}
-		if o != p {
-			r.OK(rule, construct, c.Pos(), "old=%s ≠ post-close value %s: the CAS cannot succeed after step(evClose) stored %s and latched", name(t.stNames, o), name(t.stNames, p), name(t.stNames, p))
+		if !post[o] {
+			r.OK(rule, construct, c.Pos(), "old=%s is not a post-close value %s: the CAS cannot succeed once step(evClose) has run", al.wordName(t, o), pset)
 			continue
 		}
-		r.Fail(rule, construct, c.Pos(), "CAS %s→… has old = the post-close value and is not fenced by the closed latch: a commit that lands after step(evClose) moves State() away from NotConnected after Close", name(t.stNames, o))
+		r.Fail(rule, construct, c.Pos(), "CAS %s→… has old = a post-close value %s and is not fenced by the closed latch: a commit that lands after step(evClose) moves State() away from NotConnected after Close", al.wordName(t, o), pset)
 	}
 	r.Floor(rule, "commit CAS sites outside step", n, 3)
 }
